@@ -763,6 +763,7 @@ structure ErsOutJ where
   appliedPods : Nat
   storedReconcileError : Option String := none
   storedCleanupDone : Option String := none
+  storedCanaryFailed : Option String := none
   deriving FromJson
 
 def hErsReconcile (inp out : Json) : Except String Findings := do
@@ -812,6 +813,11 @@ def hErsReconcile (inp out : Json) : Except String Findings := do
   let podWriteFailed : Bool := (inp.getObjValAs? Bool "podWriteFailed").toOption.getD false
   let fs := spec fs "C17.sync-reports-error"
     (!podWriteFailed || o.kind == "err" || o.storedReconcileError == some "True" || o.storedCleanupDone == some "False")
+  -- C06 "once true [Canary-Failed] stays true": a failure recorded by another writer while this sync was
+  -- in flight (kubectl-eds canary fail, a second controller instance) is not wiped by the sync's own
+  -- status write — that write carries an outdated resourceVersion and must be refused
+  let concurrentFail : Bool := (inp.getObjValAs? Bool "concurrentFail").toOption.getD false
+  let fs := spec fs "C06.failed-sticky-concurrent-writer" (!concurrentFail || o.storedCanaryFailed == some "True")
   -- C18 "only valid settings influence pods": settings that are not valid (in error, not yet
   -- reconciled) must be inert — the sync on the store WITHOUT them decides the same early error and
   -- the same set of creations (the model ignores them by construction: theorem C18_only_valid_used)
